@@ -8,7 +8,7 @@ from . import detsched, progs
 from .common import Violation
 
 KINDS = ('stp', 'lpm', 'pf', 'pm', 'pf2')
-EXCS = ('VErrA', 'VErrB', 'VErrC', 'VBase', 'IndexError', 'FilterException', 'VFalsy')
+EXCS = ('VErrA', 'VErrB', 'VErrC', 'VBase', 'IndexError', 'FilterException', 'TypeError', 'VFalsy')
 
 
 class Trace:
@@ -86,7 +86,7 @@ def run_case(case, trace_lines=True):
     def on_block(thread, why):
         # the CONSUMER has to wait for another thread while its stop is being processed: which submitted tasks are
         # still pending and not cancelled at that moment? (judge_cancel: cancelling comes before any waiting)
-        if stop_window['open'] and thread.tid == 0 and why != 'quiesce':
+        if stop_window['open'] and thread.tid == 0 and why not in ('quiesce', 'join closer'):
             # only pools the consumer's own thread created: a pool inside a running task is that task's business
             pend = [f.seq for ex in stop_window['executors']() if ex.creator == 0
                     for f in ex.work if f.state == 'pending']
@@ -307,6 +307,19 @@ def run_case(case, trace_lines=True):
                 except BaseException as e:  # noqa: judged by judge_termination
                     e.__traceback__ = None
                     tr.close_exc = e
+            elif stop['kind'] == 'close_other':
+                # the iterator was handed to another thread (a clean-up thread, a finaliser) which closes it there
+                def closer():
+                    try:
+                        it.close()
+                    except detsched.Abort:
+                        raise
+                    except BaseException as e:  # noqa: judged by judge_termination
+                        e.__traceback__ = None
+                        tr.close_exc = e
+                lt = sched.spawn('closer', closer)
+                sched.start_thread(lt)
+                sched.block_until(lambda: lt.finished, 'join closer')
             elif stop['kind'] == 'throw' and hasattr(it, 'throw'):
                 # the consumer's loop body failed inside a `yield from` / generator wrapper: the exception is thrown
                 # INTO the iterator at its yield and must come back out after the clean-up
@@ -728,7 +741,7 @@ def st_case(draw, profile):
         if w > 1:
             case.pop('with_key', None)
     if profile == 'stop':
-        sk = draw(st.sampled_from(['exhaust', 'close', 'close', 'del', 'gc', 'throw']))
+        sk = draw(st.sampled_from(['exhaust', 'close', 'close', 'del', 'gc', 'throw', 'close_other']))
         case['stop'] = {'kind': sk, 'k': draw(st.integers(0, n + 1)) if sk != 'exhaust' else 0}
         if draw(st.integers(0, 3)) == 0 and n:
             p = draw(st.integers(0, n - 1))
